@@ -160,6 +160,8 @@ class ParamNet:
             c = torch.zeros(4)
         shape = tuple(self.shape_fn())
         t = float(c.detach().double().sum())
+        if kwargs.get("k") is not None:
+            t += float(kwargs["k"])  # keyword conditioning (condition_(c, k=...))
         a = self._basis(0, shape)
         b = self._basis(1, shape)
         out = (math.cos(t) * a + math.sin(1.7 * t) * b) * self.scale
